@@ -255,7 +255,7 @@ def lie_cases(ctx, pp, torch):
         cs.append('(%d%%nat, %d%%nat, %s, %s, %s)' % (len(meta) - 1, gid, 'true' if left else 'false', lit_in, lit_out))
     if meta and len(ctx.samples) < 6:
         ctx.samples.append(meta[9] if len(meta) > 9 else meta[0])
-    body = ('From PV Require Import Base.Num Model.Cumops Model.LieGroup.\nFrom Coq Require Import List ZArith QArith Bool. Import ListNotations.\n'
+    body = ('From PV Require Import Base.Num Model.Cumops Model.LieGroup Model.CumLie.\nFrom Coq Require Import List ZArith QArith Bool. Import ListNotations.\n'
             'Eval vm_compute in lie_cum_bad %s.\n' % coq_list(cs))
     return meta, body
 
